@@ -75,6 +75,8 @@ func errClass(err error) string {
 	switch {
 	case err == nil:
 		return "nil"
+	case strings.HasPrefix(err.Error(), "injected:"):
+		return "Injected"
 	case errors.As(err, &sre):
 		return fmt.Sprintf("StreamRead(%d,%s)", sre.Stream, errClass(sre.Err))
 	case errors.As(err, &swe):
@@ -105,7 +107,7 @@ func errClass(err error) string {
 		return "Singular"
 	case err.Error() == "short write":
 		return "ShortWrite"
-	case err.Error() == "injected":
+	case err.Error() == "injected" || strings.HasPrefix(err.Error(), "injected:"):
 		return "Injected"
 	}
 	return "Other(" + strings.ReplaceAll(err.Error(), " ", "_") + ")"
